@@ -153,6 +153,9 @@ class RDFWriter(object):
         #self.graph.add((parent_node, rdf_predicate, bag))
         #for curr_val in values:
         #    self.graph.add((bag, RDF.li, Literal(curr_val)))
+        # odml style tuples are stored as lists; export them in their text form "(a;b)"
+        values = ["(%s)" % ";".join(val) if isinstance(val, list) else val for val in values]
+
         if rdflib_version_major() >= 6:
             seq_list = []
             for curr_val in values:
